@@ -10,12 +10,17 @@ that uses real `with UnitEnvironment(...)` blocks, real exceptions and real DIP 
                                    is caught after unwinding k enclosing scopes (k=0: caught immediately)
   ["end"]                          the innermost scope ends normally
   ["raise", k]                     the body raises; the exception unwinds k>=1 scopes before it is caught
+  ["interrupt", k]                 the same with a BaseException that is not an Exception
   ["dip", T, k]                    the body parses DIP text T (which defines units); a failing parse unwinds k scopes
   (end of history)                 every scope that is still open is unwound by an exception
 
 Invariant, evaluated on every transition: at every scope exit (normal, exceptional, failed construction) and after
 every DIP parse the tables equal the snapshot taken when the scope / parse was entered; at depth 0 they equal the
 pristine snapshot; inside a scope Quantity(1, <custom>) works for every open scope, afterwards it raises.
+
+Failing registrations include registrations *interrupted* by a non-Exception BaseException (custom subclass,
+KeyboardInterrupt, SystemExit) at step 1, 2, 3: while the units mapping is iterated, or while the k-th definition is
+read (after its conversion class was inserted).  The harness catches the injected exception outside.
 
 Four parts:
   graph   state-pruned BFS of the whole state graph (state = canonical tables + stack of open scopes), nesting <= 3:
@@ -29,7 +34,8 @@ Four parts:
           options / modifications, including for every DIP call site that opens a unit scope a statement that fails
           inside that scope (a program that failed is a leaf), at depth 0, inside unrelated and clashing Python
           scopes, and continued in a second parse on the returned environment; after a failed parse the text without
-          its failing line must parse again (twice) and leave the tables untouched
+          its failing line must parse again (twice) and leave the tables untouched; and, for each of the six call
+          sites, a second parse whose first unit scope is interrupted by a BaseException during registration
 """
 import copy
 import itertools
@@ -39,8 +45,8 @@ from .. import isolation as iso
 
 PROPERTY = "C09"
 LEVEL = "model_checking"
-RULE = ("history = sequence of scope-machine operations (open set with/explicit, failing registration with unwinding "
-        "distance k, end, raise k, DIP parse) valid under the static stack model, nesting <= 3; graph part: every "
+RULE = ("history = sequence of scope-machine operations (open set with/explicit, failing or interrupted registration "
+        "with unwinding distance k, end, raise k, interrupt k, DIP parse) valid under the static stack model, nesting <= 3; graph part: every "
         "operation applied in every reachable state (state = canonical tables + stack of open scopes); hist part: all "
         "histories with <= 2 failing steps up to the length bound, ordered by number of failing steps; a history is "
         "counted once (ownership rule hist > core > graph > cycles); non-trivial = contains a failing step, or nesting "
@@ -1179,7 +1185,10 @@ def run_shard(desc):
             if b != a:
                 triples += [(a, a, b), (a, b, a), (b, a, a)]
         if tier == "thorough":
-            triples += [(a, b, c) for b in cyc for c in cyc if len({a, b, c}) == 3]
+            # all-distinct triples: the interrupted registrations are represented by INT_REPR here
+            few = [x for x in cyc if not (x[0][0] == "fail" and x[0][1] in BAD_INT and x[0][1] not in INT_REPR)]
+            if a in few:
+                triples += [(a, b, c) for b in few for c in few if len({a, b, c}) == 3]
         for ctx in ((), (("open", "Q", "with"),)):
             for t3 in triples:
                 _exec(ctx + tuple(itertools.chain(*t3)), sh, tier, "cycles", seen)
@@ -1284,7 +1293,10 @@ MANIFEST = dict(
          "of the scope machine - open one of 8 unit sets as with-block or explicit environment, 11 kinds of failing "
          "registration (duplicate at position 1/2/3, duplicate of an enclosing scope's symbol, clash with a prefixed "
          "table symbol found only by the uniqueness check, malformed definition, inadmissible prefix, conversion class) "
-         "caught after unwinding 0..3 scopes, normal end, body exception unwinding 1..3 scopes, DIP parses that succeed "
+         "and 18 registrations interrupted by a non-Exception BaseException (custom, KeyboardInterrupt, SystemExit at "
+         "step 1/2/3 of the mapping iteration or of the definition access) "
+         "caught after unwinding 0..3 scopes, normal end, body Exception / BaseException unwinding 1..3 scopes, DIP "
+         "parses that succeed "
          "or fail inside the body - is applied in every reachable state with nesting <= 3 (1737 canonical states; quick "
          "visits depth-3 states only as three nested with-blocks with unwinding distances 0/3); (hist) all un-pruned "
          "histories with <= 2 failing steps up to length 3 (quick) / 4 (thorough) over the full alphabet and 5 / 6 over "
@@ -1294,7 +1306,8 @@ MANIFEST = dict(
          "opened by each DIP call site (node_unit, node_float, node_integer, NumberType.convert for modifications and "
          "options, numerical solver, logical solver for !condition/bool/@case: unknown unit, malformed number, refused "
          "conversion) - at depth 0, inside unrelated and clashing Python scopes and continued in a second parse; after "
-         "a failed parse the text without its failing line is parsed twice more. On every transition: tables equal "
+         "a failed parse the text without its failing line is parsed twice more; for each of the 6 DIP call sites a second "
+         "parse whose unit registration is interrupted by a BaseException. On every transition: tables equal "
          "the scope-entry snapshot at every exit / failed construction / parse, pristine at depth 0, custom units "
          "usable inside and unknown outside.",
     note="Trusted: mc/isolation.py canonical table form (plus identity of UNIT_TYPES classes), the static stack model "
